@@ -128,7 +128,7 @@ func (evidWorld) Gen(prop, tier string, idx int, r *Rng) *Trace {
 				op.A = cfg.Signers[r.Intn(nSig)].Key
 			}
 		case "mutate":
-			op.A = r.Intn(15)
+			op.A = r.Intn(16)
 			op.B = r.Intn(1 << 20)
 		}
 		if r.Chance(faultRate, 8) {
@@ -659,7 +659,7 @@ func (evidWorld) Exec(prop string, t *Trace) *Result {
 				break
 			}
 			c := e.Claims
-			if op.A%15 == 14 {
+			if op.A%16 == 15 {
 				// the template idiom: next := *attached; next.SetNonce(fresh) ... The attached object itself
 				// is not touched, so this is NOT a replacement of the claims
 				forkAndSet(c, op.B)
@@ -667,12 +667,12 @@ func (evidWorld) Exec(prop string, t *Trace) *Result {
 				res.logf("%d fork", i)
 				break
 			}
-			switch op.A % 14 {
-			case 5, 6, 7, 8, 9, 10, 11, 12, 13:
+			switch op.A % 16 {
+			case 5, 6, 7, 8, 9, 10, 11, 12, 13, 14:
 				// the owner edits exported fields of its claims object directly: states no setter can produce
 				// (10, 11: a component, through the pointer the getter hands out; 12, 13: the list amended
 				// in place - one more component through the container's Add, a component's own setter)
-				fieldMutate(c, op.A%14)
+				fieldMutate(c, op.A%16)
 			case 0:
 				_ = c.SetClientID(int32(op.B))
 			case 1:
@@ -689,9 +689,9 @@ func (evidWorld) Exec(prop string, t *Trace) *Result {
 			if c08 && shadow.Claims != nil && shadow.Claims != c {
 				// decoded separately: keep the shadow's copy in step
 				sc := shadow.Claims
-				switch op.A % 14 {
-				case 5, 6, 7, 8, 9, 10, 11, 12, 13:
-					fieldMutate(sc, op.A%14)
+				switch op.A % 16 {
+				case 5, 6, 7, 8, 9, 10, 11, 12, 13, 14:
+					fieldMutate(sc, op.A%16)
 				case 0:
 					_ = sc.SetClientID(int32(op.B))
 				case 1:
@@ -717,14 +717,20 @@ func (evidWorld) Exec(prop string, t *Trace) *Result {
 			codecFault = saved
 			if codecArmed {
 				// keep the fault-free and the faulted arm apart: only the validating call runs under the fault
-				b1, e1 := psatoken.ValidateAndEncodeClaimsToCBOR(c)
+				var b1 []byte
+				var e1 error
+				if i%2 == 0 {
+					b1, e1 = psatoken.ValidateAndEncodeClaimsToCBOR(c)
+				} else {
+					b1, e1 = psatoken.ValidateAndEncodeClaimsToJSON(c)
+				}
 				fired := disarmCodec()
 				res.Evals++
 				if fired > 0 {
 					res.Faults[op.F] += fired
 					faultSeen = true
 					if e1 == nil || len(b1) != 0 {
-						res.violate("C08", "encgate-ignores-codec-error", "", i, "ValidateAndEncodeClaimsToCBOR returned bytes although the user codec failed (%s)", op.F)
+						res.violate("C08", "encgate-ignores-codec-error", "", i, "ValidateAndEncodeClaimsTo%s returned bytes although the user codec failed (%s)", map[bool]string{true: "CBOR", false: "JSON"}[i%2 == 0], op.F)
 					}
 				}
 				break
@@ -1214,6 +1220,11 @@ func fieldMutate(c psatoken.IClaims, code int) {
 		extra := buildSwComponent(SwDesc{MVal: hp(bytes.Repeat([]byte{0xad}, 32)), Signer: hp(bytes.Repeat([]byte{0xde}, 32)), Version: sp("added-in-place")})
 		if err := cont.Add(extra); err != nil {
 			_ = cont.Add(&XSwExt{SwComponent: *extra})
+		}
+	case 14:
+		// a second entry in the nonce claim (EAT's array form), through the exported field
+		if p2 != nil && p2.Nonce != nil {
+			_ = p2.Nonce.Add(bytes.Repeat([]byte{0x5a}, 32))
 		}
 	case 13:
 		scs, err := c.GetSoftwareComponents()
